@@ -2,6 +2,7 @@ import TonicModel.Model.Reconnect
 import TonicModel.Spec.Reconnect
 import TonicModel.Lemmas.Reconnect
 import TonicModel.Lemmas.ReconnectErr
+import TonicModel.Lemmas.ReconnectStack
 /-
 C14 — A channel always answers and recovers when the peer comes back.
 Property theorems only; helper lemmas live in `Lemmas/Reconnect.lean`.
@@ -202,6 +203,72 @@ theorem C14_recovers_after_peer_drop (r : R) (c x p : Nat) (env : List Ans) (he 
   subst h1
   simp [call, h3, h2, target]
 
+/-! ## deadlines and calls that die in flight
+
+`stackCall` models the middleware `Connection::new` puts between the buffer worker and
+`Reconnect` (`AddOrigin`, `UserAgent`, `GrpcTimeout`, the optional limit layers): each of them
+calls its inner service unconditionally, and `GrpcTimeout`'s response future polls the inner
+future before its own timer.  `serveD` / `serveX` / `sessionX` are `serve` / `session` for calls
+that carry a zero effective deadline and/or are in flight when their connection dies. -/
+
+/-- Whatever the deadline of a call — zero included — `Reconnect::call` runs exactly as for an
+ordinary call: the middleware does not change what happens to the state machine, and a parked
+connect error is taken by that very call and not left behind for a later one. -/
+theorem C14_deadline_call_takes_parked_error (r : R) (zero : Bool) :
+    (stackCall r zero).1 = (call r).1 ∧
+    ∀ e, r.error = some e → (stackCall r zero).2 = .error e ∧ (stackCall r zero).1.error = none :=
+  ⟨stackCall_state r zero, fun e he => stackCall_parked r e zero he⟩
+
+/-- One request with any deadline through the worker is the ordinary `serve` seen through the
+deadline: same state afterwards, same part of the script consumed, and the only difference is
+that a request that went out with a zero deadline ends as `expired` instead of answered. -/
+theorem C14_deadline_serve_is_serve (r : R) (env : List Ans) (zero : Bool) :
+    serveD r env zero = ((serve r env).1, (serve r env).2.1, viewD zero (serve r env).2.2) :=
+  serveD_eq r env zero
+
+/-- `C14_definite_result` for calls of any kind (zero deadline or not, answered or dying in
+flight), from any state in use: never a panic; left waiting only if the environment went silent. -/
+theorem C14_definite_result_any_call (r : R) (env : List Ans) (cs : CallSpec) (hs : r.st ≠ .spent) :
+    (serveX r env cs).2.2 ≠ .plain .panic ∧
+    ((serveX r env cs).2.2 = .plain .hang → (serveX r env cs).2.1 = []) := by
+  obtain ⟨_, h2, h3⟩ := serveX_eq r env cs
+  obtain ⟨d1, d2⟩ := serve_definite r env hs
+  refine ⟨fun h => d1 ?_, fun h => ?_⟩
+  · rw [← h3, h]; rfl
+  · rw [h2]; apply d2; rw [← h3, h]; rfl
+
+/-- A session of calls of any kinds drives the state machine and consumes the script exactly like
+the plain session of the same length (`toRes` forgets what became of a request once it was out):
+what a call's deadline is, and whether its connection dies under it, has no influence on any
+other call. -/
+theorem C14_session_any_calls_is_session (r : R) (env : List Ans) (specs : List CallSpec) :
+    (sessionX r env specs).1.map XRes.toRes = (session r env specs.length).1 ∧
+    (sessionX r env specs).2 = (session r env specs.length).2 :=
+  sessionX_eq specs r env
+
+/-- `C14_session_definite` for such sessions. -/
+theorem C14_session_definite_any_calls (r : R) (env : List Ans) (specs : List CallSpec)
+    (he : r.error = none) (hs : r.st ≠ .spent) :
+    XRes.plain .panic ∉ (sessionX r env specs).1 ∧
+    (XRes.plain .hang ∈ (sessionX r env specs).1 → (sessionX r env specs).2.2 = []) := by
+  obtain ⟨h1, h2⟩ := sessionX_eq specs r env
+  obtain ⟨f1, f2, _⟩ := session_facts specs.length r env he hs
+  refine ⟨fun h => f1 ?_, fun h => ?_⟩
+  · rw [← h1]; exact List.mem_map.2 ⟨_, h, rfl⟩
+  · rw [h2]; apply f2; rw [← h1]; exact List.mem_map.2 ⟨_, h, rfl⟩
+
+/-- `C14_no_replay_session` for such sessions: the connect errors handed to calls still form a
+subsequence of the failures that happened, and every in-flight error is delivered to the call it
+struck and to no other (in order, a subsequence of the scripted fates) — neither kind of error is
+replayed onto a later call. -/
+theorem C14_no_replay_any_calls (l : Bool) (env : List Ans) (specs : List CallSpec) :
+    (reportedX (sessionX (R.init l) env specs).1).Sublist (failures env) ∧
+    (lostIds (sessionX (R.init l) env specs).1).Sublist (fateIds specs) := by
+  refine ⟨?_, sessionX_lost_sublist specs _ _⟩
+  unfold reportedX
+  rw [(sessionX_eq specs (R.init l) env).1]
+  exact session_reported_sublist _ env _ rfl
+
 /-! ## the oracle holds of the model at the two lower levels too -/
 
 /-- For every script, mode and number of calls, what the model does when driven like `Channel`
@@ -293,7 +360,8 @@ theorem C14_connect_failures_are_unavailable (o : Outcome) :
 /-- Headline: for EVERY fault script — any list of attempt outcomes, any list of calls and
 peer-drops of any length, lazy or eager — what the model lets a caller observe satisfies every
 clause of the oracle `Spec.Reconnect.clauses` (the same decidable predicate the check evaluates on
-the real implementation's output): each call gets a definite result; an error is UNAVAILABLE, is
+the real implementation's output): each call — ordinary, with a zero deadline (`callZero`), or in
+flight when the peer drops the connection (`callDie`) — gets a definite result; an error is UNAVAILABLE, is
 given only while no connection exists and the attempt this call triggered failed, and carries
 that attempt's failure (never an older one); a call succeeds whenever a connection is up or the
 endpoint is reachable again; an eager channel whose first attempt fails reports it from `connect`
@@ -356,5 +424,25 @@ example : ErrClass.fromError [.transport, .hyper ⟨false, false⟩, .io .broken
 example : ErrClass.fromError [.h2 (some 8)] = 1 ∧ ErrClass.fromError [.custom 0, .h2 (some 8)] = 2 := by decide
 -- the oracle's class clause rejects NOT_FOUND for a connect error caused by io NotFound
 example : (Spec.Reconnect.classClauses [.transport, .connectError, .io .notFound] 5).all (·.2) = false := by decide
+
+-- a zero-deadline call on a lazy channel whose attempt fails takes the connect error itself …
+example : (serveD (R.init true) [.ok, .err 7, .ok, .ok, .ok] true).2.2 = .plain (.err 7) := by decide
+-- … so the next, ordinary call starts a fresh attempt and is served
+example : (sessionX (R.init true) [.ok, .err 7, .ok, .ok, .ok] [⟨true, .answered⟩, ⟨false, .answered⟩]).1
+    = [.plain (.err 7), .plain (.resp 2)] := by decide
+-- a call dies in flight, the next one (old connection reports closed, reconnect works) is served
+example : (sessionX (R.init true) [.ok, .ok, .ok, .err 0, .ok, .ok, .ok] [⟨false, .dies 5⟩, ⟨false, .answered⟩]).1
+    = [.lost 1 5, .plain (.resp 2)] := by decide
+-- end to end: zero deadline while the attempt fails, then the peer is back
+example : Spec.Reconnect.holds true [.refuse, .accept] [.callZero, .call]
+    (E2E.run true true [.refuse, .accept] [.callZero, .call]) = true := by decide
+-- the oracle rejects what a fail-fast deadline check in front of `Reconnect::call` would produce:
+-- the zero-deadline call reports its deadline although no connection exists, and the parked
+-- error goes to the next call without any new attempt
+example : Spec.Reconnect.holds true [.refuse, .accept] [.callZero, .call]
+    { build := .ok, buildAttempts := 0,
+      evs := [.call .expired 1, .call (.error 14 (some 1)) 1] } = false := by decide
+example : Spec.Reconnect.holds true [.accept, .accept] [.callDie, .call]
+    (E2E.run true true [.accept, .accept] [.callDie, .call]) = true := by decide
 
 end C14
